@@ -122,7 +122,7 @@ def judgement(case, pcs, out, d):
 
 def run_cases(ctx, cases, attribute=True):
     outs = run_pool(K.impl, cases, timeout=K.SAT_TIMEOUT + 20.0)
-    pcss, replies = K.run_model(cases, outs, mode=1)
+    pcss, replies = K.run_model(cases, outs, mode=5)
     cov = ctx.cov.setdefault("coverage_table", {})
     pending = []
     agree = ctx.cov.setdefault("r_trace_agree", 0)
@@ -166,7 +166,7 @@ def run_cases(ctx, cases, attribute=True):
         found = {}
         if subs:
             souts = run_pool(K.impl, subs, timeout=K.SAT_TIMEOUT + 20.0)
-            spcss, sreplies = K.run_model(subs, souts, mode=1)
+            spcss, sreplies = K.run_model(subs, souts, mode=5)
             for (n, i), sc, spcs, so, srp in zip(owners, subs, spcss, souts, sreplies):
                 if n in found:
                     continue
@@ -187,8 +187,9 @@ def run_cases(ctx, cases, attribute=True):
 def run(ctx, budget):
     ctx.cov["rule"] = RULE
     cases = list(edge_cases()) + [c["case"] for c in core.load_corpus("C06")]
-    cases += gen_cases(ctx.rng, 700 * budget, big=(ctx.tier == "thorough"))
     run_cases(ctx, cases)
+    for _ in range(3 * budget):
+        run_cases(ctx, gen_cases(ctx.rng, 1000, big=(ctx.tier == "thorough")))
 
 
 def replay(ctx, body):
